@@ -308,6 +308,36 @@ class SwapIndep(ast.NodeTransformer):
         return node
 
 
+class JoinTuple(SwapIndep):
+    """two adjacent independent assignments `a = e1 ; b = e2` (same conditions as swapindep) are written as one tuple assignment `a, b = e1, e2`"""
+
+    def generic_visit(self, node):
+        ast.NodeTransformer.generic_visit(self, node)
+        if not isinstance(node, (ast.FunctionDef, ast.AsyncFunctionDef, ast.For, ast.While, ast.If, ast.With, ast.Try)):
+            return node
+        for fld in ("body", "orelse", "finalbody"):
+            blk = getattr(node, fld, None)
+            if not (isinstance(blk, list) and blk and isinstance(blk[0], ast.stmt)):
+                continue
+            out = []
+            i = 0
+            while i < len(blk):
+                a = blk[i]
+                b = blk[i + 1] if i + 1 < len(blk) else None
+                if b is not None and self._simple(a) and self._simple(b):
+                    ta, tb = a.targets[0].id, b.targets[0].id
+                    if ta != tb and ta not in _names(b.value, ast.Load) and tb not in _names(a.value, ast.Load):
+                        out.append(ast.Assign(targets=[ast.Tuple(elts=[a.targets[0], b.targets[0]], ctx=ast.Store())], value=ast.Tuple(elts=[a.value, b.value], ctx=ast.Load()),
+                                              lineno=a.lineno, col_offset=a.col_offset))
+                        self.count += 1
+                        i += 2
+                        continue
+                out.append(a)
+                i += 1
+            setattr(node, fld, out)
+        return node
+
+
 class KwPerm(ast.NodeTransformer):
     """keyword arguments of a call whose argument expressions are all names / attributes / constants are written in reverse order"""
 
@@ -558,7 +588,54 @@ class Renamer(ast.NodeTransformer):
     visit_AsyncFunctionDef = visit_FunctionDef
 
 
-DESCR = ("npalias", "extract", "unelse", "negif", "negcmp", "strip", "npaxis", "npaxiskw", "defsort", "swapindep", "kwperm", "trimslice", "splittuple")
+class NestedRenamer(ast.NodeTransformer):
+    """nested functions and lambdas: the function's name and its parameters get other names (calls by keyword keep a parameter's name)"""
+
+    def __init__(self, suffix):
+        self.suffix = suffix
+        self.count = 0
+
+    def _params(self, a):
+        return [x for x in a.args + a.posonlyargs]
+
+    def visit_FunctionDef(self, node):
+        self.generic_visit(node)
+        for g in [n for n in ast.walk(node) if n is not node and isinstance(n, (ast.FunctionDef, ast.Lambda))]:
+            inner_defs = [n for n in ast.walk(g) if n is not g and isinstance(n, (ast.FunctionDef, ast.Lambda, ast.ClassDef))]
+            if inner_defs or (isinstance(g, ast.FunctionDef) and g.decorator_list):
+                continue
+            name = g.name if isinstance(g, ast.FunctionDef) else None
+            kwcalled = set()
+            for c in ast.walk(node):
+                if isinstance(c, ast.Call) and name and isinstance(c.func, ast.Name) and c.func.id == name:
+                    kwcalled |= {k.arg for k in c.keywords if k.arg}
+                    if any(k.arg is None for k in c.keywords):
+                        kwcalled |= {x.arg for x in self._params(g.args)}
+            # the function is handed on as a value (a callback called by keyword elsewhere): leave its parameter names alone
+            passed = name and any(isinstance(n, ast.Name) and n.id == name and isinstance(n.ctx, ast.Load) for c in ast.walk(node) if isinstance(c, ast.Call)
+                                  for n in list(c.args) + [k.value for k in c.keywords])
+            ren = {} if passed else {x.arg: x.arg + self.suffix for x in self._params(g.args) if x.arg not in kwcalled and not x.arg.endswith(self.suffix) and x.arg not in ("self", "cls")}
+            if isinstance(g, ast.Lambda):
+                # a lambda stored in a keyword / attribute may be called by keyword from outside
+                ren = {} if not ren else ren
+            stored_in_g = {n.id for n in ast.walk(g) if isinstance(n, ast.Name) and isinstance(n.ctx, ast.Store)}
+            for n in ast.walk(g):
+                if isinstance(n, ast.Name) and n.id in ren:
+                    n.id = ren[n.id]
+                    self.count += 1
+                elif isinstance(n, ast.arg) and n.arg in ren:
+                    n.arg = ren[n.arg]
+            if name and not passed and not name.endswith(self.suffix) and not any(isinstance(n, (ast.Global, ast.Nonlocal)) for n in ast.walk(node)):
+                new = name + self.suffix
+                for n in ast.walk(node):
+                    if isinstance(n, ast.Name) and n.id == name:
+                        n.id = new
+                        self.count += 1
+                g.name = new
+        return node
+
+
+DESCR = ("nested", "jointuple", "npalias", "extract", "unelse", "negif", "negcmp", "strip", "npaxis", "npaxiskw", "defsort", "swapindep", "kwperm", "trimslice", "splittuple")
 
 
 def build(suffix, mode="rename"):
@@ -592,6 +669,10 @@ def build(suffix, mode="rename"):
                 r = Inliner()
             elif mode == "npalias":
                 r = NpAlias()
+            elif mode == "jointuple":
+                r = JoinTuple()
+            elif mode == "nested":
+                r = NestedRenamer(suffix)
             elif mode == "strip":
                 r = Stripper()
             elif mode == "swapindep":
@@ -666,7 +747,7 @@ def main():
     elif mode == "inline":
         print("inlined copy: %d files, %d single-use pure temporaries substituted into the statement that follows them, re-emitted by ast.unparse" % (nf, nn))
     elif mode in DESCR:
-        print("%s copy: %d files, %d sites rewritten (%s), re-emitted by ast.unparse" % (mode, nf, nn, {"strip": "docstrings and annotations removed", "swapindep": "adjacent independent call-free assignments exchanged", "kwperm": "keyword arguments written in reverse order", "trimslice": "trailing full slices dropped from subscripts", "splittuple": "tuple assignments of independent values split", "npaxis": "axis= keyword of numpy reductions made positional", "npaxiskw": "positional axis of numpy reductions made a keyword", "defsort": "methods re-ordered alphabetically", "npalias": "import numpy -> import numpy as np, numpy.x -> np.x", "extract": "returned / stored expressions moved into a fresh temporary", "unelse": "else branch after a terminal if-body de-nested", "negif": "if c: A else: B -> if not c: B else: A", "negcmp": "if a == b: A else: B -> if a != b: B else: A (also is / in)"}[mode]))
+        print("%s copy: %d files, %d sites rewritten (%s), re-emitted by ast.unparse" % (mode, nf, nn, {"jointuple": "adjacent independent assignments joined into one tuple assignment", "nested": "nested functions / lambdas and their positional parameters renamed", "strip": "docstrings and annotations removed", "swapindep": "adjacent independent call-free assignments exchanged", "kwperm": "keyword arguments written in reverse order", "trimslice": "trailing full slices dropped from subscripts", "splittuple": "tuple assignments of independent values split", "npaxis": "axis= keyword of numpy reductions made positional", "npaxiskw": "positional axis of numpy reductions made a keyword", "defsort": "methods re-ordered alphabetically", "npalias": "import numpy -> import numpy as np, numpy.x -> np.x", "extract": "returned / stored expressions moved into a fresh temporary", "unelse": "else branch after a terminal if-body de-nested", "negif": "if c: A else: B -> if not c: B else: A", "negcmp": "if a == b: A else: B -> if a != b: B else: A (also is / in)"}[mode]))
     elif mode == "kwcalls":
         print("keyword-call copy: %d files, %d calls of package functions / own methods rewritten from positional to keyword arguments, re-emitted by ast.unparse" % (nf, nn))
     else:
